@@ -102,7 +102,14 @@ def extract():
             i = srv.find("{", start)
             encl = srv[i:match_brace(srv, i)]
             binds = re.findall(r"(\w[\w\s\(]*?)\bbytes\b\)?\s*(?::[^=]+)?=(?!=)\s*([^;{]*)", encl)
-            ok = arg == "bytes" and len(binds) >= 1 and all(b[1].strip().startswith("frame_outbound(") and "Some(" in b[0] for b in binds)
+            def from_guard(rhs, encl=encl):
+                rhs = rhs.strip()
+                if rhs.startswith("frame_outbound("): return True
+                mm = re.fullmatch(r"(\w+)\s*else", rhs) or re.fullmatch(r"(\w+)", rhs)   # `let Some(bytes) = framed else {..}`
+                if not mm: return False
+                src = re.findall(r"let\s+" + mm.group(1) + r"\s*(?::[^=]+)?=(?!=)\s*([^;{]*)", encl)
+                return len(src) >= 1 and all(x.strip().startswith("frame_outbound(") for x in src)
+            ok = arg == "bytes" and len(binds) >= 1 and all(from_guard(b[1]) and "Some(" in b[0] for b in binds)
             # nothing else in a sending function may serialise a message
             ok = ok and not re.search(r"into_wire_bytes\(|\.to_vec\(\)|\.encode\(\)|write_to\(", encl)
             guarded = guarded and bool(ok)
